@@ -104,7 +104,8 @@ def rhs_menu(kind):
     return out
 
 
-ODE_RATES_ALL = [("A", "B", "P"), ("C", "C", "A"), ("P", "B", "B")]
+# (k12, k21, ke, zero-order input of the dose-less peripheral compartment)
+ODE_RATES_ALL = [("A", "B", "P", "P"), ("C", "C", "A", "A"), ("P", "B", "B", "E")]
 
 
 def ode_rates(kind):
@@ -209,10 +210,10 @@ def build(prog):
     sts = []
     for st in prog:
         if st[0] == "ode":
-            k12, k21, ke = st[1]
+            k12, k21, ke, kin = st[1]
             cb = CompartmentalSystemBuilder()
             cen = Compartment.create("CENTRAL", doses=(Bolus.create("AMT"),))
-            per = Compartment.create("PERIPHERAL")
+            per = Compartment.create("PERIPHERAL", input=Expr.symbol(kin))
             cb.add_compartment(cen)
             cb.add_compartment(per)
             cb.add_flow(cen, per, Expr.symbol(k12))
@@ -535,7 +536,7 @@ def check_program(prog):
 
     # ---- subs commutes with execution
     #   (a) injective renaming of an assigned symbol and a leaf to fresh names
-    ren = {"A": "D", "P": "Q"}
+    ren = {"A": "D", "P": "Q"}  # an assigned symbol and a parameter (both also occur as zero-order inputs in the ODE menu)
     try:
         rs = stats.subs({Expr.symbol(k): Expr.symbol(v) for k, v in ren.items()})
     except Exception as e:
@@ -683,7 +684,7 @@ def check_removal(prog, sl, res, k, S, finals):
 
 def fmt_st(st):
     if st[0] == "ode":
-        return "ODE(k12=%s,k21=%s,ke=%s)" % st[1]
+        return "ODE(k12=%s,k21=%s,ke=%s,input=%s)" % st[1]
     lhs, rhs = st
     k = rhs[0]
     if k in ("leaf", "sym"):
